@@ -3,7 +3,7 @@ Bounded stand-in (labelled bounded): System.collect_ref on stock cases -- every 
 the IdxParams that point to the device (once per referring parameter).  Bound: the listed stock cases.
 collect_ref itself is outside the verified subset (lists of lists built by comprehension over range(model.n)).
 """
-CASES = ['ieee14/ieee14_full.xlsx', 'kundur/kundur_full.xlsx', '5bus/pjm5bus.xlsx']
+CASES = ['ieee14/ieee14_full.xlsx', 'kundur/kundur_full.xlsx', '5bus/pjm5bus.xlsx', 'mixed:kundur']
 
 
 def run():
@@ -13,7 +13,7 @@ def run():
     n = 0
     mism = []
     for case in CASES:
-        ss = andes.load(andes.get_case(case), default_config=True, no_output=True)
+        ss = andes.load(__import__('contracts.mixed_case', fromlist=['resolve']).resolve(case), default_config=True, no_output=True)
         holders = list(ss.models.values()) + list(ss.groups.values())
         for dest in holders:
             if dest.n == 0:
